@@ -1,6 +1,45 @@
 # rule instances shared by several properties (each property file gives the instance its own id)
-import re
+import re, importlib
 from sa.rules import *
+
+
+def module_rules(t, cid, need_obl=False):
+    """the rule results of property module `cid` on tree `t`, computed once per process. A module that is being evaluated higher up in the call
+    stack yields None (shares between two modules in both directions: the nested evaluation is only mined for base rules). Unless `need_obl`,
+    the nested evaluation skips the abstract-interpretation fixpoints (they are the slow part and never the source of a shared structural rule)."""
+    cache = t.__dict__.setdefault("_mod_rules", {})
+    key = (cid, bool(need_obl))
+    if key in cache: return cache[key]
+    if (cid, True) in cache: return cache[(cid, True)]
+    busy = t.__dict__.setdefault("_mod_busy", set())
+    if cid in busy: return None
+    import rules.oblcommon as OC
+    busy.add(cid)
+    if not need_obl: OC.SKIP[0] += 1
+    try:
+        res = [r.finish() for r in importlib.import_module("rules." + cid).rules(t)]
+    finally:
+        busy.discard(cid)
+        if not need_obl: OC.SKIP[0] -= 1
+    cache[key] = res
+    return res
+
+
+def share(t, out, new_id, descr, src, ids, need_obl=False):
+    """SHARE: rule instance(s) `ids` of property `src` state a structural clause that is a necessary condition of this property as well; the
+    instance is evaluated once and reported here under `new_id` (keys keep the source id, so a vetted/known entry names one clause)."""
+    res = module_rules(t, src, need_obl)
+    if res is None: return
+    r = RuleResult(new_id, descr + f" (shared with {'/'.join(ids)})", floor=1)
+    found = False
+    for x in res:
+        if x.id in ids:
+            found = True
+            r.sites += x.sites
+            r.samples += list(getattr(x, "samples", []))[:3]
+            for v in x.violations: r.bad(v.key, v.site, v.msg)
+    if not found: r.bad("share-missing", None, f"rule instance {ids} of {src} was not evaluated")
+    out.append(r)
 
 
 def counted_flag_rule(t, rid, descr, fn, counter_adt, counter, flags, idx_pat, floor=0):
